@@ -61,6 +61,15 @@ CHECKS["C16"] = dict(engine="Handshake", design="§4 C16",
     note=HS_NOTE + " An empty client state is identified with an absent one (an empty message marshals to zero bytes on this wire format).",
     technique="TLA+ spec + TLC-generated behaviours + real dials with harness-side ClientHello parsing + TLC trace validation")
 
+CHECKS["C19"] = dict(engine="Store", design="§4 C19",
+    text="Store.tla is the typed key-value map with the back-end parameters (remove-absent result, store-once rule, listable types); TLC checks the property predicate against every operation in every map reachable in 5 effective operations. TLC-generated operation sequences (incl. unknown/nil types and empty ids) run on the in-memory, file and store-once back ends and each call is judged by StoreTrace.tla; concurrent 3-client programs on the in-memory back end run under the race detector and TLC searches a linearisation of every recorded history.",
+    note="Trusted: Go race detector, the filesystem, TLC. Pre/post projections are read through the back end's own Load.",
+    technique="TLA+ spec (Store.tla) + TLC exhaustive + behaviour replay on three back ends + TLC trace validation + TLC linearisation search + Go race detector")
+CHECKS["C20"] = dict(engine="Alpn", design="§4 C20",
+    text="Alpn.tla models Break/Combine over abstract character sequences with constants (budget, radix, index width); TLC checks the round trip with an interleaved foreign entry at every position for every payload length up to 3x the point where the chunk number needs a third digit (scaled constants), and shows that the fixed-width decoder fails there. The real functions are run on boundary and seeded lengths (quick) or every length 1..57138 for both prefixes (thorough), with interleaved foreign / other-prefix / empty names and malformed entry lists; each run is judged by AlpnTrace.tla against the spec's arithmetic at the real constants.",
+    note="Trusted: TLC. Payload content is seeded random base64; exhaustive over lengths in the thorough tier, not over content.",
+    technique="TLA+ spec (Alpn.tla) + TLC exhaustive on scaled constants + exhaustive-length replay of the real functions + TLC trace validation")
+
 PENDING = {}
 for i in range(1, 21):
     pid = "C%02d" % i
